@@ -7,7 +7,7 @@ from fractions import Fraction
 sys.path.insert(0, os.path.dirname(os.path.dirname(os.path.abspath(__file__))))
 from verif_static.core import run_check, AnalysisError  # noqa
 from verif_static.norm import same, same_stmt  # noqa
-from verif_static import model as M, cfg as C  # noqa
+from verif_static import model as M, cfg as C, norm as N  # noqa
 from verif_static.poly import Poly  # noqa
 
 INT = 'pysph/tools/interpolator.py'
@@ -214,8 +214,11 @@ def rule_sources(chk, tree):
     chk.floor('default equation constructions', n, 7)
     pa = M.find_func(icls, '_create_particle_array')
     c = [x for x in M.calls(pa) if M.call_name(x) == 'get_particle_array']
-    kw = dict((k.arg, compact(k.value)) for k in c[0].keywords) if c else {}
-    chk.decide(kw.get('name') == "'interpolate'" and kw.get('x') == 'xr' and kw.get('y') == 'yr' and kw.get('z') == 'zr' and kw.get('h') == 'h', 'all-arrays-are-sources',
+    ld_pa = N.local_defs(pa.body)
+    kw = dict((k.arg, compact(N.inline(k.value, ld_pa))) for k in c[0].keywords) if c else {}
+    pr_ = [a.arg for a in pa.args.args][1:4] + ['?', '?', '?']
+    chk.decide(kw.get('name') == "'interpolate'" and all(any(kw.get(ax) == f_ % pr_[k_] for f_ in ('%s.ravel()', '%s.flatten()', 'np.ravel(%s)', 'numpy.ravel(%s)')) for k_, ax in enumerate('xyz'))
+               and 'h' in kw, 'all-arrays-are-sources',
                'target-array', node=pa, file=INT, func='_create_particle_array', detail_bad='target array built with %s' % kw, detail_ok="name='interpolate', the target coordinates")
     # the smoothing length of the target points is the largest h of the *current* source data: computed, in the call that creates the target array, by a
     # fold over self.particle_arrays (directly or through a helper method) - a value remembered from an earlier call lags behind in-place changes of h
@@ -310,15 +313,17 @@ def on_every_path(fn, call_texts):
 def rule_rebinding(chk, tree):
     icls = interp_class(tree)
     upa = M.find_func(icls, 'update_particle_arrays')
-    g = C.build_cfg(upa)
-    src = compact(upa)
-    arr = [a for a in ast.walk(upa) if isinstance(a, ast.Assign) and compact(a.targets[0]) == 'arrays']
-    ok = 'self._set_particle_arrays(particle_arrays)' in src and bool(arr) and compact(arr[0].value) == 'self.particle_arrays+[self.pa]' and \
-        on_every_path(upa, ['self._create_nnps(arrays)', 'self.func_eval.update_particle_arrays(arrays)'])
-    if ok:
-        setn = [n.id for n in g.nodes if n.ast is not None and isinstance(n.ast, ast.Expr) and M.call_name(n.ast.value) == 'self._set_particle_arrays']
-        an = g.node_of(arr[0])
-        ok = bool(setn) and g.dominates(setn[0], an)
+    from verif_static import paths as PT
+    par_ = [a_ for a_ in M.arg_names(upa) if a_ != 'self'][0]
+    upaths = [p_ for p_ in PT.enumerate_paths(M.docstring_stripped(upa.body)) if p_[-1].kind != 'raise']
+    ok = bool(upaths)
+    for p_ in upaths:
+        cl = [(i, cal, [compact(PT.resolve(a_, env)) for a_ in c_.args]) for i, c_, cal, env in PT.calls_on(p_)]
+        st_ = [i for i, cal, ar in cl if cal == 'self._set_particle_arrays' and ar == [par_]]
+        nn_ = [i for i, cal, ar in cl if cal == 'self._create_nnps' and ar == ['self.particle_arrays+[self.pa]']]
+        ev_ = [i for i, cal, ar in cl if cal == 'self.func_eval.update_particle_arrays' and ar == ['self.particle_arrays+[self.pa]']]
+        if not (st_ and nn_ and ev_ and min(st_) < min(nn_) and min(st_) < min(ev_)):
+            ok = False
     chk.decide(ok, 'rebinding', 'Interpolator.update_particle_arrays', node=upa, file=INT, func='update_particle_arrays',
                detail_bad='new arrays are not installed, given a new neighbour structure over (sources + target) AND re-bound in the evaluator',
                detail_ok='set arrays; new NNPS over sources+target; evaluator re-bound to the same list')
@@ -343,7 +348,10 @@ def rule_rebinding(chk, tree):
         chk.decide(gi is not None and compact(gi.test) == 'self.func_evalisNone' and g2.dominates(pa[0], cmp_[0]), 'rebinding', 'compiled-once-with-target', node=sip, file=INT,
                    func='set_interpolation_points', detail_bad='evaluator compilation guard changed', detail_ok='compiled once, after the target array exists')
     sd = M.find_func(icls, 'set_domain')
-    chk.decide('self.set_interpolation_points(x,y,z)' in compact(sd), 'rebinding', 'set_domain', node=sd, file=INT, func='set_domain',
+    gsd = C.build_cfg(sd)
+    sip_calls = [n.id for n in gsd.nodes if n.ast is not None and isinstance(n.ast, ast.Expr) and isinstance(n.ast.value, ast.Call) and M.call_name(n.ast.value) == 'self.set_interpolation_points'
+                 and len(n.ast.value.args) + len(n.ast.value.keywords) == 3]
+    chk.decide(bool(sip_calls) and gsd.must_pass(gsd.entry, gsd.exit, sip_calls), 'rebinding', 'set_domain', node=sd, file=INT, func='set_domain',
                detail_bad='set_domain does not go through set_interpolation_points', detail_ok='delegates')
     upd = M.find_func(icls, 'update')
     src = compact(upd)
@@ -386,11 +394,15 @@ def rule_rebinding(chk, tree):
     chk.decide(ok, 'rebinding', 'interpolate:stage-property-of-every-array', node=ip, file=INT, func='interpolate',
                detail_bad='the property is not copied into temp_prop of every source array (all particles; 0 where the array lacks it) before the evaluation',
                detail_ok='temp_prop[:] = prop (or 0) for every array, then compute')
-    res = dict((compact(a.value), a) for a in ast.walk(ip) if isinstance(a, ast.Assign) and compact(a.targets[0]) == 'result')
+    cpar_ = ([a_ for a_ in M.arg_names(ip) if a_ != 'self'] + ['comp', 'comp'])[1]
+    res = dict((compact(a.value).replace('[%s::4]' % cpar_, '[comp::4]'), a) for a in ast.walk(ip) if isinstance(a, ast.Assign) and isinstance(a.targets[0], ast.Name) and 'self.pa.prop' in compact(a.value))
     chk.decide('self.pa.prop.copy()' in res and 'self.pa.prop[comp::4].copy()' in res, 'rebinding', 'interpolate:result-stride', node=ip, file=INT, func='interpolate',
                detail_bad='result read as %s (scalar methods: prop; order1: prop[comp::4])' % sorted(res), detail_ok='prop / prop[comp::4]')
     sp = M.find_func(icls, '_set_particle_arrays')
-    ok = 'self.particle_arrays=particle_arrays' in compact(sp) and "if'temp_prop'notinarray.properties:array.add_property('temp_prop')" in compact(sp).replace('\n', '')
+    spar_ = [a_ for a_ in M.arg_names(sp) if a_ != 'self'][0]
+    lps_ = [l_ for l_ in ast.walk(sp) if isinstance(l_, ast.For) and isinstance(l_.target, ast.Name) and compact(l_.iter) in (spar_, 'self.particle_arrays')]
+    ok = 'self.particle_arrays=%s' % spar_ in compact(sp) and any(
+        ("if'temp_prop'notin%s.properties:%s.add_property('temp_prop')" % (l_.target.id, l_.target.id)) in compact(l_).replace('\n', '') for l_ in lps_)
     chk.decide(ok, 'rebinding', '_set_particle_arrays', node=sp, file=INT, func='_set_particle_arrays', detail_bad='new arrays are not stored / given temp_prop', detail_ok='stored; temp_prop ensured')
     # SPHEvaluator
     st = M.py(SEV)
@@ -409,7 +421,9 @@ def rule_rebinding(chk, tree):
     chk.decide(ok, 'rebinding', 'SPHEvaluator._create_nnps', node=e_cn, file=SEV, func='SPHEvaluator._create_nnps', detail_bad=str(kw), detail_ok='factory(particles=arrays, ...); set_nnps')
     e_init = M.find_func(ecls, '__init__')
     g4 = C.build_cfg(e_init)
-    a = [n.id for n in g4.nodes if n.ast is not None and isinstance(n.ast, ast.Expr) and M.call_name(n.ast.value) == 'compiler.compile']
+    comp_names = [a_.targets[0].id for a_ in ast.walk(e_init) if isinstance(a_, ast.Assign) and isinstance(a_.targets[0], ast.Name) and isinstance(a_.value, ast.Call)
+                  and (M.call_name(a_.value) or '').endswith('SPHCompiler')]
+    a = [n.id for n in g4.nodes if n.ast is not None and isinstance(n.ast, ast.Expr) and isinstance(n.ast.value, ast.Call) and (M.call_name(n.ast.value) or '') in [c_ + '.compile' for c_ in comp_names]]
     b = [n.id for n in g4.nodes if n.ast is not None and isinstance(n.ast, ast.Expr) and M.call_name(n.ast.value) == 'self._create_nnps']
     chk.decide(bool(a and b) and g4.dominates(a[0], b[0]), 'rebinding', 'SPHEvaluator.__init__', node=e_init, file=SEV, func='SPHEvaluator.__init__',
                detail_bad='evaluator is not compiled and then given its neighbour structure at construction', detail_ok='compile then _create_nnps(arrays)')
@@ -496,16 +510,31 @@ def rule_order1(chk, tree):
                        detail_ok='all %d entries reset' % n)
     # the solve uses the layout the accumulation wrote
     pl = M.methods(fo)['post_loop']
-    src = dict((compact(a.targets[0]), a.value) for a in ast.walk(pl) if isinstance(a, ast.Assign) and isinstance(a.targets[0], ast.Subscript))
+    # (the scratch matrices are identified by their role in the two calls, not by their names)
     aug = [c for c in M.calls(pl) if M.call_name(c) == 'augmented_matrix']
     gj = [c for c in M.calls(pl) if M.call_name(c) == 'gj_solve']
-    nd = [a for a in ast.walk(pl) if isinstance(a, ast.Assign) and compact(a.targets[0]) == 'n']
-    ok = len(aug) == 1 and len(gj) == 1 and [compact(x) for x in aug[0].args] == ['a_mat', 'b', 'n', '1', '4', 'aug_mat'] and [compact(x) for x in gj[0].args] == ['aug_mat', 'n', '1', 'res'] and \
-        aug[0].lineno < gj[0].lineno and len(nd) == 1 and same(nd[0].value, 'self.dim+1')
-    ok = ok and 'a_mat[i]' in src and same(src['a_mat[i]'], 'd_moment[16*d_idx+i]') or ok and 'a_mat[i]' in src and same(resolve_names(pl, src['a_mat[i]']), 'd_moment[16*d_idx+i]')
-    okb = 'b[i]' in src and same(resolve_names(pl, src['b[i]']), 'd_p_sph[4*d_idx+i]')
-    outk = [k for k in src if k.startswith('d_prop[')]
-    oko = len(outk) == 1 and same(resolve_names(pl, ast.parse(outk[0], mode='eval').body), 'd_prop[4*d_idx+i]') and compact(src[outk[0]]) == 'res[i]'
+    ok = okb = oko = False
+    if len(aug) == 1 and len(gj) == 1 and len(aug[0].args) == 6 and len(gj[0].args) == 4 and all(isinstance(x, ast.Name) for x in (aug[0].args[0], aug[0].args[1], aug[0].args[5], gj[0].args[3])):
+        A_, B_, N_a, one_a, four_a, AUG_ = aug[0].args
+        AUG_g, N_g, one_g, RES_ = gj[0].args
+        ldp = N.local_defs(pl.body)
+        ok = compact(AUG_g) == compact(AUG_) and compact(one_a) == '1' and compact(one_g) == '1' and compact(four_a) == '4' and aug[0].lineno < gj[0].lineno and \
+            same(N.inline(N_a, ldp), 'self.dim+1') and same(N.inline(N_g, ldp), 'self.dim+1')
+
+        def copies(dst, text, count):
+            # for v in range(count): dst[v] = <text with i := v>
+            for l_ in [l_ for l_ in ast.walk(pl) if isinstance(l_, ast.For) and isinstance(l_.target, ast.Name) and compact(l_.iter) == 'range(%d)' % count]:
+                for a_ in l_.body:
+                    if isinstance(a_, ast.Assign) and compact(a_.targets[0]) == '%s[%s]' % (dst, l_.target.id) and same(N.inline(a_.value, ldp), text.replace('<i>', l_.target.id)):
+                        return True
+            return False
+        ok = ok and copies(A_.id, 'd_moment[16*d_idx+<i>]', 16)
+        okb = copies(B_.id, 'd_p_sph[4*d_idx+<i>]', 4)
+        for l_ in [l_ for l_ in ast.walk(pl) if isinstance(l_, ast.For) and isinstance(l_.target, ast.Name) and compact(l_.iter) == 'range(4)' and l_.lineno > gj[0].lineno]:
+            for a_ in l_.body:
+                if isinstance(a_, ast.Assign) and isinstance(a_.targets[0], ast.Subscript) and compact(a_.targets[0].value) == 'd_prop':
+                    tl_ = ast.Subscript(value=a_.targets[0].value, slice=a_.targets[0].slice, ctx=ast.Load())
+                    oko = same(N.inline(tl_, ldp), 'd_prop[4*d_idx+%s]' % l_.target.id) and compact(a_.value) == '%s[%s]' % (RES_.id, l_.target.id)
     chk.decide(bool(ok and okb and oko), 'order1-linear-reproduction', 'solve-uses-the-accumulated-layout', node=pl, file=INT, func='SPHFirstOrderApproximation.post_loop',
                detail_bad='post_loop must copy the 4x4 row-major moment block and the 4-vector of this particle, solve the leading (dim+1) system with augmented_matrix(a, b, n, 1, 4, aug) / '
                           'gj_solve(aug, n, 1, res) and store res into d_prop[4*d_idx + i]', detail_ok='copy, augmented_matrix(.., n, 1, 4, ..), gj_solve(.., n, 1, res), store')
